@@ -3,6 +3,7 @@ package main
 import (
 	"fmt"
 	"go/token"
+	"go/types"
 	"strings"
 
 	"golang.org/x/tools/go/ssa"
@@ -348,6 +349,90 @@ func runC13(c *Ctx) {
 	ruleAtomicReplace(c, "R13.2")
 	c.ranRules["R13.4"] = true
 	ruleCompletedOnlyOnSuccessAs(c, "R13.4")
+	ruleServeAfterDurable(c, "R13.5")
+	ruleNoDestructiveStepBeforeKeyFiles(c, "R13.6")
+}
+
+// R13.5: a beacon is handed to subscribers (streams, sync peers, the transition trigger) only after the store below
+// committed it: what a restarted node finds on disk includes everything it ever served.
+func ruleServeAfterDurable(c *Ctx, rule string) {
+	c.ranRules[rule] = true
+	fn := c.P.Fn("internal/chain/beacon.(*callbackStore).Put")
+	if !c.Anchor(rule, "internal/chain/beacon.(*callbackStore).Put", fn != nil) {
+		return
+	}
+	inner := innerPutCall(fn)
+	if inner == nil {
+		c.Ok(rule, "callbackStore.Put stores through the wrapped store", c.P.Pos(fn.Pos()), false, "no inner Put call")
+		return
+	}
+	n := 0
+	for _, f := range withClosures(fn) {
+		f := f
+		forEachInstr(f, func(_ *ssa.BasicBlock, _ int, in ssa.Instruction) {
+			isQueue := func(v ssa.Value) bool {
+				return hasOrigin(Origins(v), func(o Origin) bool { return o.Kind == "lookup" && strings.HasSuffix(o.Name, ".newJob") }) || strings.Contains(pathOf(v), ".newJob")
+			}
+			sends := false
+			switch x := in.(type) {
+			case *ssa.Send:
+				sends = isQueue(x.Chan)
+			case *ssa.Select:
+				for _, st := range x.States {
+					if st.Dir == types.SendOnly && isQueue(st.Chan) {
+						sends = true
+					}
+				}
+			}
+			if !sends {
+				return
+			}
+			n++
+			// inside a function literal of Put: the guard must hold where the literal is called
+			at := in
+			okSite := true
+			for g := f; g != fn && okSite; g = g.Parent() {
+				okSite = false
+				forEachInstr(g.Parent(), func(_ *ssa.BasicBlock, _ int, x ssa.Instruction) {
+					if ci, isCI := x.(ssa.CallInstruction); isCI && calledFunc(ci) == g {
+						if _, isGo := x.(*ssa.Go); !isGo {
+							at, okSite = x, true
+						}
+					}
+				})
+			}
+			c.Ok(rule, "callbackStore.Put dispatches a beacon only after the wrapped store committed it", shortPos(c.P, in), okSite && guardedByOK(at, inner),
+				"every path to the hand-over crosses the success edge of the inner Put")
+		})
+	}
+	c.Floor(rule, "subscriber hand-overs in callbackStore.Put", n, 1)
+}
+
+// R13.6: replacing the group file and the share at an epoch change removes nothing first: between a removal and the
+// writes that follow it a crash leaves no usable key material although the DKG database already records the new epoch.
+func ruleNoDestructiveStepBeforeKeyFiles(c *Ctx, rule string) {
+	c.ranRules[rule] = true
+	n := 0
+	for _, key := range []string{"internal/core.(*BeaconProcess).saveDKGOutput", "internal/core.(*BeaconProcess).storeDKGOutput"} {
+		fn := c.P.Fn(key)
+		if !c.Anchor(rule, key, fn != nil) {
+			continue
+		}
+		n++
+		bad := ""
+		for _, ci := range callsIn(fn, func(ci ssa.CallInstruction) bool { return true }) {
+			nm := calleeName(ci)
+			m := methodName(ci)
+			if ci.Common().IsInvoke() {
+				m = ci.Common().Method.Name()
+			}
+			if (ci.Common().IsInvoke() && (m == "Reset" || m == "Delete")) || nm == "os.Remove" || nm == "os.RemoveAll" || nm == "os.Truncate" || strings.HasSuffix(nm, "common/key.Delete") {
+				bad = trimTemps(pathOf(ci.Common().Value)) + "." + m + " at " + shortPos(c.P, ci)
+			}
+		}
+		c.Ok(rule, fnShort(fn)+" removes no key material while switching to the new group", c.P.Pos(fn.Pos()), bad == "", bad)
+	}
+	c.Floor(rule, "functions writing the DKG output to the key store", n, 2)
 }
 
 func ruleCompletedOnlyOnSuccessAs(c *Ctx, rule string) {
